@@ -110,6 +110,17 @@ struct C06 : Property {
           else if (x < 0.20) faults.push_back({{"link", link}, {"idx", k}, {"act", "delay"}, {"delay_us", {r.range(0, (int64_t)at * 2000)}}});
         }
     }
+    // A fifth of the random plans put libcoap in the server role: the Confirmable is a notification that libcoap creates itself
+    // inside its I/O loop (one observer, one change per exchange), subject to the same schedule, outcome and wake-up rules.
+    if (index >= 1024 && r.chance(0.2)) {
+      cfg["role"] = "server";
+      cfg["n_sess"] = 1;
+      json nops = json::array();
+      int64_t t = 100;
+      int k = (int)r.range(1, 3);
+      for (int i = 0; i < k; i++) { nops.push_back({{"t_ms", t}, {"sess", 0}}); t += 400000; }   // far apart: one notification outstanding at a time
+      ops = nops;
+    }
     p["config"] = cfg;
     p["ops"] = ops;
     p["replies"] = replies;
@@ -119,7 +130,111 @@ struct C06 : Property {
 
   std::vector<std::string> shrink_keys() override { return {"faults", "replies", "ops"}; }
 
+  static void hnd_obs(coap_resource_t *, coap_session_t *, const coap_pdu_t *, const coap_string_t *, coap_pdu_t *response) {
+    coap_pdu_set_code(response, COAP_RESPONSE_CODE_CONTENT);
+    coap_add_data(response, 2, (const uint8_t *)"ok");
+  }
+
+  void execute_server(const json &plan, RunResult &res, bool verbose) {
+    C06World cw;
+    g = &cw;
+    cw.res = &res;
+    World &w = cw.w;
+    w.begin(plan.value("sched_salt", 1ull), &res, verbose, false);
+    w.max_sim_ns = 60000ull * 1000000000ull;
+    simk::K().icmp_recv_only = true;
+    R3Monitor r3(w, res);
+    cw.r3 = &r3;
+    const json &cfg = plan["config"];
+    w.add_node(nullptr);   // 0: libcoap server
+    w.add_node(nullptr);   // 1: raw observer
+    cw.ctx = cx::new_context(w, 0);
+    coap_resource_t *obs = nullptr;
+    {
+      World::AsNode as(0);
+      coap_register_nack_handler(cw.ctx, nack_cb);
+      obs = coap_resource_init(coap_make_str_const("o"), COAP_RESOURCE_FLAGS_NOTIFY_CON);
+      coap_register_request_handler(obs, COAP_REQUEST_GET, hnd_obs);
+      coap_resource_set_get_observable(obs, 1);
+      coap_add_resource(cw.ctx, obs);
+      // the transmission parameters of server sessions are the defaults unless set on the session: set them when it appears
+    }
+    static const json *s_cfg;
+    s_cfg = &cfg;
+    static R3Monitor *s_r3;
+    s_r3 = &r3;
+    coap_register_event_handler(cw.ctx, [](coap_session_t *s, const coap_event_t ev) -> int {
+      if (ev != COAP_EVENT_SERVER_SESSION_NEW) return 0;
+      cx::set_fixed(s, coap_session_set_ack_timeout, s_cfg->value("at_milli", 2000));
+      cx::set_fixed(s, coap_session_set_ack_random_factor, s_cfg->value("rf_milli", 1500));
+      coap_session_set_max_retransmit(s, (uint16_t)s_cfg->value("max_rtx", 4));
+      s_r3->set_params_from_session(0, s);
+      return 0;
+    });
+    cx::new_endpoint(w, 0, cw.ctx, 5683, COAP_PROTO_UDP);
+    for (auto &f : plan["faults"]) w.faults.push_back(f.get<Fault>());
+    cw.replies = plan.value("replies", json::array());
+    r3.watch(0, R3Monitor::Params());
+    r3.attach();
+    simk::Addr pa = World::node_addr(1, 5683);
+    int pfd = simk::raw_udp_socket(1, pa);
+    int rx = 0;
+    w.nodes[0].after_step = [&]() { r3.check_wait(0); };
+    w.pollers.push_back([&]() {
+      simk::Datagram d;
+      while (simk::raw_recv(pfd, d)) {
+        if (d.data.size() < 4) continue;
+        int type = (d.data[0] >> 4) & 3, mid = d.data[2] << 8 | d.data[3];
+        if (type != 0) continue;     // only Confirmable notifications are answered (the registration's piggybacked response is an ACK)
+        int k = rx++;
+        std::string kind = "ack";
+        int64_t delay = 0;
+        for (auto &rp : cw.replies)
+          if (rp.value("sess", 0) == 0 && rp.value("rx", 0) == k) { kind = rp.value("kind", "ack"); delay = rp.value("delay_us", (int64_t)0); w.count("fault.reply_" + kind); break; }
+        simk::Addr to = d.src;
+        auto send = [&w, to, pfd](int t, int m, int64_t dl) {
+          Bytes b = {(uint8_t)(0x40 | t << 4), 0, (uint8_t)(m >> 8), (uint8_t)m};
+          w.after_us(dl, [pfd, to, b]() { simk::raw_sendto(pfd, to, b); });
+        };
+        if (kind == "icmp") { simk::Datagram copy = d; w.after_us(delay, [copy]() { simk::deliver_icmp_unreach(copy); }); }
+        else if (kind == "ack") send(2, mid, delay);
+        else if (kind == "rst") send(3, mid, delay);
+        else if (kind == "ack_dup") { send(2, mid, delay); send(2, mid, delay + 700); }
+        else if (kind == "ack_wrong_mid") send(2, (mid + 1) & 0xffff, delay);
+        // every other scripted kind: no reply
+      }
+    });
+    // registration
+    {
+      r1::Msg reg;
+      reg.type = 0;
+      reg.code = 1;
+      reg.mid = 0x1000;
+      reg.token = {0xC0, 0x06, 0x5E};
+      reg.opts.push_back({r1::O_OBSERVE, {}});
+      reg.opts.push_back({r1::O_URI_PATH, Bytes{'o'}});
+      simk::raw_sendto(pfd, World::node_addr(0, 5683), r1::encode_udp(reg));
+    }
+    for (auto &op : plan["ops"])
+      w.at_ns(w.now() + (uint64_t)op.value("t_ms", 100) * 1000000ull, [&]() {
+        coap_resource_notify_observers(obs, nullptr);
+        w.count("probe.server_role_notify");
+        w.log("NOTIFY");
+      }, 0);
+    w.run();
+    if (w.aborted) res.violate("M-live.abort", w.abort_why, "run did not quiesce: " + w.abort_why);
+    else r3.finish();
+    res.nontrivial = res.counters.count("probe.retransmission") && (!plan["faults"].empty() || !cw.replies.empty());
+    {
+      World::AsNode as(0);
+      coap_free_context(cw.ctx);
+    }
+    w.end();
+    g = nullptr;
+  }
+
   void execute(const json &plan, RunResult &res, bool verbose) override {
+    if (plan["config"].value("role", "client") == "server") { execute_server(plan, res, verbose); return; }
     C06World cw;
     g = &cw;
     cw.res = &res;
